@@ -1009,6 +1009,22 @@ func (r *Resolver) checkDname(
 }
 
 func (r *Resolver) answer(ctx context.Context, req, resp *dns.Msg, parentDS []dns.RR, zone string, extra ...bool) (*dns.Msg, error) {
+	// The servers that sent resp speak for zone and nothing else. Answer
+	// records owned outside it (the "resolved" tail of an out-of-zone
+	// CNAME/DNAME target, or foreign RRsets riding along) are not theirs
+	// to give: drop them before anything is validated, followed or relayed.
+	// The cache only ever stored the in-question part, but the first reply
+	// went to the client verbatim and the cache's alias chase stopped at a
+	// poisoned target record of the asked type. Without that tail the chase
+	// (and checkDname below) re-resolves the target through its own zone.
+	if inZone := dnsutil.FilterRRsToZone(resp.Answer, zone); len(inZone) != len(resp.Answer) {
+		if len(inZone) == 0 {
+			zlog.Warn("Answer owned outside the responding zone", "query", dnsutil.FormatQuestion(req.Question[0]), "zone", zone)
+			return nil, errForeignAnswer
+		}
+		resp.Answer = inZone
+	}
+
 	// The internal recursion's target response is held back until
 	// after the outer DNSSEC check. Merging target records into resp
 	// before dnssec.VerifyRRSIG() would force the validator to tolerate
